@@ -1,7 +1,7 @@
 (* C04 — ReadPDU is total and memory-bounded on arbitrary bytes.  Statements
    only.  [read_pdu] is the model of pdu.ReadPDU over a transport that hands out
    ARBITRARY data under an ARBITRARY read schedule. *)
-From V Require Import Model.Pdu Gen.PduLayouts Proofs.PduStreamProofs.
+From V Require Import Model.Pdu Model.PduAlloc Gen.PduLayouts Proofs.PduStreamProofs Proofs.PduAllocProofs.
 Open Scope N_scope.
 
 (* For every byte sequence and every fragmentation: no panic, no exhausted fuel
@@ -30,6 +30,20 @@ Proof. exact (read_pdu_header_reject layouts). Qed.
 Theorem C04_no_fuel_error : forall lay f, unmarshal lay f <> Err EFuel.
 Proof. exact unmarshal_no_fuel. Qed.
 
+(* Memory.  [read_pdu_alloc] adds up the octets the library requests with make([]byte, n)
+   during one call — body buffer, every TLV value, every UDH element, the message buffer — with
+   n taken from the wire BEFORE the octets are read.  For ALL octet strings and schedules the
+   sum is at most five times the frame limit (65520 body + 66046 short message + 131071 TLVs:
+   every TLV value but the last is backed by octets actually present in the frame). *)
+Theorem C04_alloc : forall s sched, octetsb s = true ->
+  read_pdu_alloc layouts {| st_data := s; st_sched := sched |} <= 5 * 65536.
+Proof. exact read_pdu_alloc_bound. Qed.
+(* ... and nothing at all is requested for a rejected header *)
+Theorem C04_alloc_reject : forall s sched a b c d,
+  firstn 4 s = [a; b; c; d] -> (de32 a b c d < 16 \/ 65536 < de32 a b c d) ->
+  read_pdu_alloc layouts {| st_data := s; st_sched := sched |} = 0.
+Proof. exact (read_pdu_alloc_reject layouts). Qed.
+
 Example C04_inhabited :
   fst (fst (read_pdu layouts {| st_data := [0;0;0;16; 0;0;0;21; 0;0;0;0; 0;0;0;1; 9]; st_sched := [3]%nat |})) <> RpEOF.
 Proof. vm_compute. discriminate. Qed.
@@ -37,3 +51,5 @@ Proof. vm_compute. discriminate. Qed.
 Print Assumptions C04_total.
 Print Assumptions C04_header_reject.
 Print Assumptions C04_no_fuel_error.
+Print Assumptions C04_alloc.
+Print Assumptions C04_alloc_reject.
